@@ -8,10 +8,12 @@ import (
 	"fmt"
 	"math/big"
 	"sort"
+	"strings"
 	"time"
 
 	sdkmath "cosmossdk.io/math"
 	"github.com/cometbft/cometbft/crypto/tmhash"
+	tmbytes "github.com/cometbft/cometbft/libs/bytes"
 	sdk "github.com/cosmos/cosmos-sdk/types"
 
 	htlctypes "mods.irisnet.org/modules/htlc/types"
@@ -229,14 +231,17 @@ func (d *Driver) universe() mc.Universe {
 	return mc.Universe{"A": mc.Addr("A"), "B": mc.Addr("B"), "C": mc.Addr("C"), "D": mc.Addr("D"), "escrow": mc.ModuleAddr(htlctypes.ModuleName)}
 }
 
-func (d *Driver) Apply(e *mc.Env, s *mc.State, op mc.Op) []mc.Finding {
-	var out []mc.Finding
-	for _, f := range d.apply(e, s, op) {
-		if len(f.Sig) >= 4 && f.Sig[:4] == d.V.Mode+"/" {
-			out = append(out, f)
-		}
+var adoptC13 = map[string]string{"C03/refund-": "C13/htlc/due-processing/refund-", "C03/escrow-differs": "C13/htlc/due-processing/escrow-differs"}
+
+func (d *Driver) sel(fs []mc.Finding) []mc.Finding {
+	if d.V.Mode == "C13" {
+		return mc.Select(fs, "C13", adoptC13)
 	}
-	return out
+	return mc.Select(fs, d.V.Mode, nil)
+}
+
+func (d *Driver) Apply(e *mc.Env, s *mc.State, op mc.Op) []mc.Finding {
+	return d.sel(d.apply(e, s, op))
 }
 
 func class(c contract) string {
@@ -402,13 +407,45 @@ func (d *Driver) apply(e *mc.Env, s *mc.State, op mc.Op) []mc.Finding {
 }
 
 func (d *Driver) Check(e *mc.Env, s *mc.State) []mc.Finding {
-	var out []mc.Finding
-	for _, f := range d.check(e, s) {
-		if len(f.Sig) >= 4 && f.Sig[:4] == d.V.Mode+"/" {
-			out = append(out, f)
+	fs := d.check(e, s)
+	if d.V.Mode == "C13" {
+		fs = append(fs, Hygiene(e, s)...)
+	}
+	return d.sel(fs)
+}
+
+// Hygiene compares the raw expiration queue with the contracts: every entry refers to an existing open
+// contract expiring at the entry's height; every open contract has exactly one entry, at its expiration
+// height; no entry is at a height whose begin-block has already run.
+func Hygiene(e *mc.Env, s *mc.State) []mc.Finding {
+	var fs []mc.Finding
+	h := s.Ctx.BlockHeight()
+	entries := map[string]int{}
+	for _, q := range mc.QueueEntries(s.Ctx, e, "htlc", 0x02) {
+		id := strings.ToUpper(hex.EncodeToString(q.Rest))
+		entries[id]++
+		c, found := e.HTLC.GetHTLC(s.Ctx, q.Rest)
+		switch {
+		case !found:
+			fs = append(fs, mc.F("C13/queue/htlc/entry-without-contract", "queue entry at height %d for unknown contract %s", q.Height, id))
+		case c.State != htlctypes.Open:
+			fs = append(fs, mc.F("C13/queue/htlc/entry-for-closed-contract", "queue entry at height %d for contract in state %s", q.Height, c.State))
+		case int64(c.ExpirationHeight) != q.Height:
+			fs = append(fs, mc.F("C13/queue/htlc/entry-height-differs", "queue entry at height %d, contract expires at %d", q.Height, c.ExpirationHeight))
+		}
+		if q.Height <= h {
+			fs = append(fs, mc.F("C13/queue/htlc/entry-in-the-past", "queue entry at height %d still present in block %d (begin-block of that height has run)", q.Height, h))
 		}
 	}
-	return out
+	e.HTLC.IterateHTLCs(s.Ctx, func(id tmbytes.HexBytes, c htlctypes.HTLC) bool {
+		if c.State == htlctypes.Open {
+			if n := entries[strings.ToUpper(hex.EncodeToString(id))]; n != 1 {
+				fs = append(fs, mc.F("C13/queue/htlc/open-contract-entry-count", "open contract expiring at %d has %d queue entries", c.ExpirationHeight, n))
+			}
+		}
+		return false
+	})
+	return fs
 }
 
 func (d *Driver) check(e *mc.Env, s *mc.State) []mc.Finding {
